@@ -1,5 +1,6 @@
 import Pyrtma.Drv.Util
 import Pyrtma.Spec.ClientSub
+import Pyrtma.Spec.ClientLife
 /-! Line-protocol driver for M2 (see harness/client_corr.py for the grammar). -/
 namespace Pyrtma.Drv.ClientSub
 open Pyrtma.ClientSub Pyrtma.Drv
@@ -56,7 +57,7 @@ def sections (ts : List String) : List (String × List String) :=
   let rec go (cur : Option (String × List String)) (acc : List (String × List String)) : List String → List (String × List String)
     | [] => (match cur with | some (k, v) => acc ++ [(k, v.reverse)] | none => acc)
     | t :: r =>
-      if t == "S" || t == "P" || t == "D" || t == "F" || t == "M" || t == "I" || t == "A" then
+      if ["S", "P", "D", "F", "M", "I", "A", "C", "N", "R", "K", "H", "T", "X"].contains t then
         go (some (t, [])) (match cur with | some (k, v) => acc ++ [(k, v.reverse)] | none => acc) r
       else match cur with
         | some (k, v) => go (some (k, t :: v)) acc r
@@ -123,6 +124,145 @@ def finishCase (c : Case) : List String :=
       | some d => s!"{c.id} CORR diff {d}"
     [corr, s!"{c.id} PROP C02 {propWalk c.U (viewOf c.U CState.init MState.init) ops 0}"]
 
+
+/-! ### life-cycle cases (`LCASE`, see harness/client_corr.py) -/
+
+structure ImplL where
+  ph : ImplPhase := {}
+  connected : Bool := false
+  modId : Int := 0
+  req : Option Int := none
+  ack : Option Int := none
+  held : List Int := []
+  table : List String := []
+  cursor : Nat := 0
+
+def optInt : List String → Option Int
+  | [x] => if x == "-" then none else some (intOf x)
+  | _ => none
+
+def parseL (r : List String) : ImplL :=
+  match r with
+  | _ :: _ :: rest =>
+    let ss := sections rest
+    { ph := parsePhase r, connected := sect ss "C" == ["1"], modId := ((sect ss "N").map intOf).headD 0,
+      req := optInt (sect ss "R"), ack := optInt (sect ss "K"), held := (sect ss "H").map intOf,
+      table := sect ss "T", cursor := ((sect ss "X").map natOf).headD 0 }
+  | _ => {}
+
+def showOpt : Option Int → String
+  | some x => toString x
+  | none => "-"
+
+def showRec (r : MConn) : String :=
+  s!"{r.modId}:{if r.live then 1 else 0}:{if r.unique then 1 else 0}:[{String.intercalate "," ((canon r.m.subs).map toString)}]"
+
+/-- `modId:live:unique:[subs]` without the subscriptions -/
+def dropSubs (t : String) : String := String.intercalate ":" ((t.splitOn ":").take 3)
+
+/-- `ids`: the projection for C06 (identity only: outcome, connected, ids, table without subscriptions, cursor) -/
+def showImplL (ids : Bool) (p : ImplL) : String :=
+  if ids then
+    s!"{p.ph.status} C={if p.connected then 1 else 0} N={p.modId} R={showOpt p.req} K={showOpt p.ack} " ++
+    s!"H=[{showSet p.held}] T=[{joinSp (p.table.map dropSubs)}] X={p.cursor}"
+  else
+  showImpl p.ph ++ s!" C={if p.connected then 1 else 0} N={p.modId} R={showOpt p.req} K={showOpt p.ack} " ++
+  s!"H=[{showSet p.held}] T=[{joinSp p.table}] X={p.cursor}"
+
+def lstatusName : LStatus → String
+  | .ok => "ok" | .refused => "refused" | .notConnected => "notConnected" | .lost => "lost" | .ackTimeout => "ackTimeout"
+
+def showModelL (ids : Bool) (U : List Int) (x : LPhase × Mgr) : String :=
+  let cl := x.1.cl
+  if ids then
+    s!"{lstatusName x.1.status} C={if cl.connected then 1 else 0} N={cl.modId} R={showOpt x.1.req} " ++
+    s!"K={showOpt x.1.ack} H=[{showSet (lheld cl x.2)}] " ++
+    s!"T=[{joinSp ((x.2.conns.filter (·.own)).map (fun r => dropSubs (showRec r)))}] X={x.2.cursor}"
+  else
+  let m : MState := match x.2.find cl.conn with | some r => r.m | none => MState.init
+  s!"{lstatusName x.1.status} n={x.1.frames.length} A={if cl.sub.subAll then 1 else 0} S=[{showSet cl.sub.subscribed}] " ++
+  s!"P=[{showSet cl.sub.paused}] D=[{showSet (lview U cl x.2).delivered}] F=[{showFrames x.1.frames}] " ++
+  s!"M=[{showSet m.subs}] I=[{showSet m.index}] C={if cl.connected then 1 else 0} N={cl.modId} R={showOpt x.1.req} " ++
+  s!"K={showOpt x.1.ack} H=[{showSet (lheld cl x.2)}] T=[{joinSp ((x.2.conns.filter (·.own)).map showRec)}] X={x.2.cursor}"
+
+def toLObs (p : ImplL) : LObs :=
+  { status := if p.ph.status == "ok" then some .ok else if p.ph.status == "refused" then some .refused
+              else if p.ph.status == "notConnected" then some .notConnected
+              else if p.ph.status == "lost" then some .lost
+              else if p.ph.status == "ackTimeout" then some .ackTimeout else none,
+    nframes := p.ph.nframes, view := ⟨p.ph.sub, p.ph.paused, p.ph.delivered⟩, connected := p.connected,
+    modId := p.modId, req := p.req, ack := p.ack, held := p.held }
+
+def parseLOp : List String → Option LOp
+  | ["connect", a] => some (.connect (a == "1"))
+  | ["connectLate", a] => some (.connectLate (a == "1"))
+  | ["disconnect"] => some .disconnect
+  | ["lostRead", n] => some (.lostRead (n == "1"))
+  | ["lostSend", n] => some (.lostSend (n == "1"))
+  | "ctlLost" :: k :: n :: l => (parseCtl k).map (fun c => .ctlLost c (l.map intOf) (n == "1"))
+  | ["mgrNotices"] => some .mgrNotices
+  | "sub" :: r => (parseOp r).map .sub
+  | _ => none
+
+structure LCase where
+  id : String := ""
+  allT : Int := 0
+  cfg : IdCfg := {}
+  created : Int := 0
+  cursor : Nat := 0
+  ids : Bool := false
+  U : List Int := []
+  others : List (Int × Bool) := []            -- reversed
+  ops : List (LOp × List ImplL) := []         -- reversed; phases reversed
+
+def lcorrWalk (ids : Bool) (cfg : IdCfg) (U : List Int) : LSys → List (LOp × List ImplL) → Nat → Option String
+  | _, [], _ => none
+  | s, (op, ph) :: r, i =>
+    let mp := lstep cfg s op
+    let ms := mp.map (showModelL ids U)
+    let is := ph.map (showImplL ids)
+    if ms == is then lcorrWalk ids cfg U (lafter s mp) r (i + 1)
+    else some s!"op={i} model={ms} impl={is}"
+
+/-- the Spec on the implementation's observations; `which` selects the property -/
+def lpropWalk (cfg : IdCfg) (U : List Int) (created : Int) (which : Nat) : LObs → List (LOp × List ImplL) → Nat → String
+  | _, [], _ => "ok"
+  | pre, (op, ph) :: r, i =>
+    let obs := ph.map toLObs
+    if obs.isEmpty then s!"fail no_observation op={i}"
+    else
+      let f := if which == 2 then lopFail02 U pre op obs else lopFail06 cfg created op obs
+      match f with
+      | some c => s!"fail {c} op={i}"
+      | none => lpropWalk cfg U created which (lastObs pre obs) r (i + 1)
+
+def finishL (c : LCase) : List String :=
+  let ops := c.ops.reverse.map (fun p => (p.1, p.2.reverse))
+  if c.allT != ALL then
+    [s!"{c.id} CORR diff ALL_MESSAGE_TYPES model={ALL} impl={c.allT}", s!"{c.id} PROP C02 skip", s!"{c.id} PROP C06 skip"]
+  else
+    let s0 := LSys.init c.created c.others.reverse c.cursor
+    let corr := match lcorrWalk c.ids c.cfg c.U s0 ops 0 with
+      | none => s!"{c.id} CORR ok"
+      | some d => s!"{c.id} CORR diff {d}"
+    let pre := LObs.fresh c.created
+    [corr, s!"{c.id} PROP C02 {lpropWalk c.cfg c.U c.created 2 pre ops 0}",
+     s!"{c.id} PROP C06 {lpropWalk c.cfg c.U c.created 6 pre ops 0}"]
+
+def lstepLine (c : LCase) (line : String) : LCase × List String :=
+  match toks line with
+  | "U" :: ts => ({ c with U := ts.map intOf }, [])
+  | ["OTHER", i, u] => ({ c with others := (intOf i, u == "1") :: c.others }, [])
+  | "LOP" :: r =>
+    (match parseLOp r with
+     | some op => ({ c with ops := (op, []) :: c.ops }, [])
+     | none => (c, []))
+  | "LPH" :: r =>
+    (match c.ops with
+     | (op, ph) :: rest => ({ c with ops := (op, parseL r :: ph) :: rest }, [])
+     | [] => (c, []))
+  | _ => (c, [])
+
 def step (c : Case) (line : String) : Case × List String :=
   match toks line with
   | ["CASE", id, a] => ({ id := id, allT := intOf a }, [])
@@ -143,9 +283,19 @@ def main : IO Unit := do
   let stdout ← IO.getStdout
   let lines ← readLines stdin
   let mut c : Case := {}
+  let mut lc : Option LCase := none
   for l in lines do
-    let (c', out) := step c l
-    c := c'
-    for o in out do stdout.putStrLn o
+    match lc, toks l with
+    | none, "LCASE" :: id :: a :: ds :: mm :: cr :: cur :: proj =>
+      lc := some { id := id, allT := intOf a, cfg := ⟨intOf ds, intOf mm⟩, created := intOf cr, cursor := natOf cur,
+                   ids := proj == ["ids"] }
+    | some k, ["END"] =>
+      for o in finishL k do stdout.putStrLn o
+      lc := none
+    | some k, _ => lc := some (lstepLine k l).1
+    | none, _ =>
+      let (c', out) := step c l
+      c := c'
+      for o in out do stdout.putStrLn o
 
 end Pyrtma.Drv.ClientSub
